@@ -195,11 +195,15 @@ pub fn injected(k: u64) -> io::Error {
 /// `Interrupted` and `WouldBlock` are the kinds code is most tempted to swallow).  Write / flush errors keep
 /// kind `Other`: std's `write_all` itself retries `Interrupted` by contract.
 pub fn injected_read(k: u64) -> io::Error {
-    let kind = match k % 4 {
+    let kind = match k % 8 {
         0 => io::ErrorKind::Other,
         1 => io::ErrorKind::Interrupted,
         2 => io::ErrorKind::WouldBlock,
-        _ => io::ErrorKind::ConnectionReset,
+        3 => io::ErrorKind::ConnectionReset,
+        4 => io::ErrorKind::UnexpectedEof,
+        5 => io::ErrorKind::TimedOut,
+        6 => io::ErrorKind::BrokenPipe,
+        _ => io::ErrorKind::ConnectionAborted,
     };
     io::Error::new(kind, format!("injected {}", k))
 }
